@@ -46,7 +46,7 @@ def build(reg, src):
 
     not_held = lambda s, *a: VBool(z3.Not(A(s.st, s.self)['held']))
 
-    reg.fn(F + 'update_file_futures_and_memory', params=dict(file_name=FKey, memory_usage=Int), setup=setup, returns=None,
+    reg.fn(F + 'update_file_futures_and_memory', params=c16.uffm_params(src), setup=setup, returns=None,
            requires=[not_held, lambda s: And(s.memory_usage >= 0, s.memory_usage <= VInt(A(s.st, s.self)['max']))],
            ensures=[not_held], ensures_exc=[not_held])
     reg.fn(F + 'unload_file', params=dict(file_name=FKey), setup=setup, returns=None, requires=[not_held], ensures=[not_held], ensures_exc=[not_held])
@@ -58,6 +58,32 @@ def build(reg, src):
            requires=[not_held], ensures=[not_held], ensures_exc=[not_held])
     reg.fn(F + 'get_file', params=dict(file_name=FKey), setup=pub_setup, returns='opaque',
            requires=[not_held], ensures=[not_held], ensures_exc=[not_held])
+    # a LOAD that completes while a write of the same file is pending must leave the write's entry alone: clearing its writing flag
+    # would admit a second write next to the first (two writers race; disk, cache and accounting disagree for good)
+    loaded_of = lambda s: s.loaded if s.has('loaded') else VBool(False)
+
+    def load_passes_flag(s):
+        return Implies(VBool('in_load_file' in s.st.ghost), loaded_of(s))
+
+    def load_leaves_pending_write(s, r):
+        snap = s.st.ghost.get('acq_arrays')
+        if snap is None:
+            return VBool(True)
+        a1 = A(s.st, s.self)
+        f = s.file_name.t
+        same_entry = z3.And(*[sel(a1[k], f) == sel(snap[k], f) for k in ('dom', 'writing', 'bytes', 'fid', 'counted')])      # (other entries may have been evicted by recover_memory)
+        return Implies(And(loaded_of(s), VBool(z3.And(sel(snap['dom'], f), sel(snap['writing'], f)))), VBool(same_entry))
+    cu = reg.fns[F + 'update_file_futures_and_memory']
+    cu.requires = list(cu.requires) + [load_passes_flag]
+    cu.ensures = list(cu.ensures) + [load_leaves_pending_write]
+
+    def lf_setup(eng, st):
+        setup(eng, st)
+        st.ghost['in_load_file'] = lift(True)
+    reg.fn(F + '_load_file', params=dict(file_name=FKey), setup=lf_setup,
+           requires=[not_held, lambda s: len_(s.g('os')[VU(fs.JOIN(A(s.st, s.self)['root'], s.file_name.t))]) <= VInt(A(s.st, s.self)['max'])],   # get_file checked the size
+           returns='opaque', ensures=[not_held])
+
     # the writer task: the entry stops being a pending write (update_file_futures_and_memory clears the flag and counts the bytes) only
     # AFTER the file holds the new contents - otherwise a second update of the same file can be admitted while this write is still in
     # flight, and the two writes reach the disk in either order (cache and disk disagree for good)
@@ -81,6 +107,7 @@ def build(reg, src):
     from replay import c18 as rp
     reg.replays.append((r'update_file_futures_and_memory#assert', rp.replay_unload_during_load))
     reg.replays.append((r'update_file_futures_and_memory#release', rp.replay_double_count))
+    reg.replays.append((r'_load_file|update_file_futures_and_memory#post', rp.replay_stale_load))
     reg.replays.append((r'.', rp.replay_generic))
 
 
@@ -119,7 +146,7 @@ def configure(eng):
         havoc_futures(st)
         st.assume(W(st, c))                       # the monitor invariant holds whenever the lock is free
         a = A(st, c)
-        st.ghost['acq_arrays'] = dict(dom=a['dom'], counted=a['counted'])
+        st.ghost['acq_arrays'] = dict(dom=a['dom'], counted=a['counted'], writing=a['writing'], bytes=a['bytes'], fid=a['fid'], cur=a['cur'])
         st.ghost['acquires'] = st.ghost.get('acquires', lift(0)) + 1
 
     def on_release(e, st, lock, node):
